@@ -35,6 +35,28 @@ PROPS = {
         "assumptions": ["Go runtime, net and x/net control-message code are not modelled",
                         "peer is a loopback address: ARP/NDP table lookups return nothing (environment)"],
     },
+    "C10": {
+        "proof_files": ["Proofs/ConfigFacts.v"],
+        "runs": [{"engine": "forwarder", "args": [], "n_quick": 600, "n_thorough": 60000, "netns": True}],
+        "trivial_tags": [r"^default$"],
+        "rule": "random ordered forwarder lists (1-5 entries over a pool of nested/overlapping domains in random letter case, "
+                "domain-less entries at any position, Set's same-domain replacement) x 4 names each (equal, child, grandchild, "
+                "string-suffix-only, suffix of the domain, root, unrelated; 0x20-randomised); each forwarder is a real resolver.DNS "
+                "pointing at its own UDP server, default appended as run.go does; observed = which servers saw the name. "
+                "non-trivial = a configured forwarder (not the default) was selected by the model",
+        "assumptions": ["label-level reading of 'parent on a label boundary' is the extracted spec_get (label lists, case-insensitive) "
+                        "evaluated on every case; the Coq theorems state it at string level ('.domain' suffix)"],
+    },
+    "C11": {
+        "proof_files": ["Proofs/ConfigFacts.v"],
+        "runs": [{"engine": "profile", "args": [], "n_quick": 800, "n_thorough": 80000, "netns": True}],
+        "trivial_tags": [r"^none$"],
+        "rule": "random ordered profile lists (0-6 entries: v4/v6 nested subnets, MACs in three notations, interface conditions on "
+                "lo and a veth pair, unconditional ids; built with Profiles.Set) x 5 client tuples (absent src/dst/MAC, v4-mapped); "
+                "non-trivial = some profile id selected",
+        "assumptions": ["net.ParseCIDR / ParseMAC / InterfaceByName are environment: the harness reports their results to the model",
+                        "the id-to-URL wiring in run.go (package main) is covered by the resolver/e2e engines of C06, not here"],
+    },
     "C13": {
         "proof_files": WIRE,
         "runs": [
